@@ -341,42 +341,10 @@ def precedence(ctx):
 
 
 def model_keys(ctx):
-    model = ctx.fn(UC, 'model')
-    written = {}
-    for s in ast.walk(model):
-        if isinstance(s, ast.Assign) and isinstance(s.targets[0], ast.Subscript) and norm(s.targets[0].value) == 'datamodel' and isinstance(s.targets[0].slice, ast.Constant):
-            written.setdefault(s.targets[0].slice.value, []).append(s)
-    for reader, valkey in (('value_unit', 'value'), ('error_unit', 'error')):
-        fn = ctx.fn(UC, reader)
-        read = set()
-        for n in ast.walk(fn):
-            if isinstance(n, ast.Subscript) and norm(n.value) == 'term' and isinstance(n.slice, ast.Constant):
-                read.add(n.slice.value)
-            if isinstance(n, ast.Call) and norm(n.func) == 'term.get' and n.args and isinstance(n.args[0], ast.Constant):
-                read.add(n.args[0].value)
-            if isinstance(n, ast.Compare) and isinstance(n.left, ast.Constant) and norm(n.comparators[0]) == 'term':
-                read.add(n.left.value)
-        ctx.ob('MODEL-KEYS', UC + '::' + reader, '%s reads {%s, unit, shape}, all written by model()' % (reader, valkey),
-               read == {valkey, 'unit', 'shape'} and read <= set(written), 'reads %s; model writes %s' % (sorted(read), sorted(written)), node=fn)
-        # unit read is converted with set_in_units (inverse of model's get_in_units)
-        sc = [c for c in calls_in(fn) if norm(c.func) == 'set_in_units']
-        ok = len(sc) == 1 and norm(sc[0].args[0]) == "term['%s']" % valkey and norm(sc[0].args[1]) == 'unit'
-        ctx.ob('MODEL-KEYS', UC + '::' + reader, 'stored numbers are converted back with the stored unit', ok, node=fn)
-        rs = [c for c in calls_in(fn) if norm(c.func).endswith('.reshape')]
-        ctx.ob('MODEL-KEYS', UC + '::' + reader, 'stored shape is restored', len(rs) == 1 and norm(rs[0].args[0]) == 'shape', node=fn)
-    loc = UC + '::model'
-    gc = [c for c in calls_in(model) if norm(c.func) == 'get_in_units']
-    ok = len(gc) == 2 and all(norm(c.args[1]) == 'units' for c in gc) and {norm(c.args[0]) for c in gc} == {'value', 'error'}
-    ctx.ob('MODEL-KEYS', loc, 'value and error are converted to the requested unit before storing', ok, node=model)
-    # unit key stored iff units given, with the same string
-    us = written.get('unit', [])
-    ok = len(us) == 1 and norm(us[0].value) == 'units' and isinstance(us[0]._parent, ast.If) and norm(us[0]._parent.test) == 'units is not None'
-    ctx.ob('MODEL-KEYS', loc, 'the unit string is stored iff a unit was requested', ok, node=us[0] if us else model)
-    sh = written.get('shape', [])
-    ok = len(sh) == 1 and 'shape' in norm(sh[0].value)
-    vs = [s for s in written.get('value', []) if 'flatten' in norm(s.value)]
-    ok = ok and len(vs) == 1 and vs[0]._parent is sh[0]._parent
-    ctx.ob('MODEL-KEYS', loc, 'arrays of rank >= 2 are stored flattened together with their shape', ok, node=sh[0] if sh else model)
+    """model() / value_unit() / error_unit() as a writer-reader pair, interpreted on symbolic values of rank 0-3 with and without a unit (shared with the data-model property):
+    keys written, numbers divided by the unit in row-major order, shape recorded, and the readers undo it"""
+    from .c10 import uc_model
+    uc_model(ctx, rule='MODEL-KEYS')
 
 
 def _always(stmts, pred):
